@@ -118,3 +118,439 @@ theorem insert_onchain {v : Hdr → Hdr → Bool} {c : Nat → Hdr} (hd : LinkDo
       rcases hx with hx | hx
       · exact hall x hx
       · exact hbatch x hx
+
+/-! ### the store's range sets -/
+
+local notation "RInv" => Lumina.Model.Ranges.Inv
+open Lumina.Model.Ranges (mem)
+
+theorem sup_le_of {l : List Nat} {b : Nat} (h : ∀ x ∈ l, x ≤ b) : sup l ≤ b := by
+  by_cases e : l = []
+  · subst e; simp [sup]
+  · exact h _ (sup_mem l e)
+
+theorem storedRanges_spec {a : AbsStore} (hi : AbsInv a) :
+    RInv a.storedRanges ∧ ∀ h, mem a.storedRanges h ↔ a.stored h = true := by
+  have h0 : a.stored 0 = false := by
+    rw [stored_false_iff]; intro x hx e; have := (hi.bounds x hx).1; omega
+  have hb : sup (a.hdrs.map (·.height)) ≤ Lumina.Model.Ranges.U64_MAX :=
+    sup_le_of (fun x hx => by
+      obtain ⟨y, hy, e⟩ := List.mem_map.1 hx
+      rw [← e]; exact (hi.bounds y hy).2)
+  obtain ⟨i1, m1⟩ := rangesOf_inv a.stored _ h0 hb
+  refine ⟨i1, fun h => ?_⟩
+  unfold AbsStore.storedRanges
+  rw [m1 h]
+  constructor
+  · exact fun hp => hp.2
+  · intro hs
+    refine ⟨?_, hs⟩
+    obtain ⟨x, hx, e⟩ := (stored_iff a h).1 hs
+    exact mem_sup _ h (by rw [← e]; exact List.mem_map_of_mem hx)
+
+theorem prunedRanges_spec {a : AbsStore} (hi : AbsInv a) :
+    RInv a.prunedRanges ∧ ∀ h, mem a.prunedRanges h ↔ h ∈ a.pruned := by
+  have h0 : a.isPruned 0 = false := by
+    cases hc : a.isPruned 0 with
+    | false => rfl
+    | true =>
+      have : 0 ∈ a.pruned := by simpa [AbsStore.isPruned] using hc
+      have := (hi.prunedB 0 this).1; omega
+  have hb : sup a.pruned ≤ Lumina.Model.Ranges.U64_MAX := sup_le_of (fun x hx => (hi.prunedB x hx).2)
+  obtain ⟨i1, m1⟩ := rangesOf_inv a.isPruned _ h0 hb
+  refine ⟨i1, fun h => ?_⟩
+  unfold AbsStore.prunedRanges
+  rw [m1 h]
+  constructor
+  · intro hp; simpa [AbsStore.isPruned] using hp.2
+  · intro hs
+    exact ⟨mem_sup _ h hs, by simpa [AbsStore.isPruned] using hs⟩
+
+/-- nothing was pruned above the stored head: the highest synced height is stored -/
+def TopStored (a : AbsStore) : Prop := ∀ p ∈ a.pruned, ∃ x ∈ a.hdrs, p < x.height
+
+open Lumina.Model.SyncerGate (fetchDecision Decision) in
+open Lumina.Proofs.SyncerGate Lumina.Proofs.Ranges in
+/-- **The fetch decision only schedules batches that touch a stored header** (so that the store
+    verifies them against a neighbour: no batch is taken on faith), in every state whose highest
+    synced height is stored and whose head is only set once something is stored. -/
+theorem request_has_stored_neighbour {e : Env} {s : State} {r : Lumina.Model.Ranges.Range}
+    (hi : AbsInv s.store) (htop : TopStored s.store) (hne : s.store.hdrs ≠ [])
+    (h : fetchDecision e.slowMin (gateIn e s) = .ok (.request r)) :
+    1 ≤ r.1 ∧ r.1 ≤ r.2 ∧ NbStored s.store r.1 r.2 := by
+  obtain ⟨ist, mst⟩ := storedRanges_spec hi
+  obtain ⟨ipr, mpr⟩ := prunedRanges_spec hi
+  obtain ⟨head, synced, _, _, hadd, hcalc, hnemp, _, hgate⟩ := request_cases h
+  simp only [gateIn] at hadd hcalc hgate
+  obtain ⟨c, hc, hci, hcm⟩ := add_spec ipr ist
+  rw [hadd] at hc
+  injection hc with hc
+  subst hc
+  obtain ⟨h1, h2, hshape⟩ := calc_cases hci hcalc hnemp
+  refine ⟨h1, h2, ?_⟩
+  rcases hshape with ⟨habove, _, htopm⟩ | ⟨hbound, _⟩
+  · -- forward batch: it starts right above the highest synced height, which is stored
+    left
+    rcases htopm with hnil | hm
+    · exfalso
+      subst hnil
+      cases hh : s.store.hdrs with
+      | nil => exact hne hh
+      | cons x rest =>
+        have : s.store.stored x.height = true := (stored_iff _ _).2 ⟨x, by rw [hh]; simp, rfl⟩
+        exact mem_nil _ ((hcm _).2 (Or.inr ((mst _).2 this)))
+    · rcases (hcm _).1 hm with hp | hs
+      · exfalso
+        obtain ⟨x, hx, hlt⟩ := htop _ ((mpr _).1 hp)
+        have : mem synced x.height := (hcm _).2 (Or.inr ((mst _).2 ((stored_iff _ _).2 ⟨x, hx, rfl⟩)))
+        have := habove _ this
+        omega
+      · exact (mst _).1 hs
+  · -- backward batch: the gate only lets it through when the height just above it is stored
+    right
+    rcases hgate with ⟨hcs, _⟩ | ⟨_, hnp⟩
+    · exact (mst _).1 ((contains_iff_mem _ _).1 hcs)
+    · have : Lumina.Model.Ranges.contains synced (r.2 + 1) = true := (contains_iff_mem _ _).2 hbound
+      simp [this] at hnp
+
+/-! ### monotonicity of insertion -/
+
+theorem insert_hdrs_sub (v : Hdr → Hdr → Bool) (a : AbsStore) (b : List Hdr) :
+    ∀ x ∈ a.hdrs, x ∈ (a.insert v b).1.hdrs := by
+  intro x hx
+  unfold AbsStore.insert
+  split
+  · exact hx
+  · exact hx
+  · simp only [List.mem_append]; exact Or.inl hx
+
+theorem insert_pruned_sub (v : Hdr → Hdr → Bool) (a : AbsStore) (b : List Hdr) :
+    ∀ p ∈ (a.insert v b).1.pruned, p ∈ a.pruned := by
+  intro p hp
+  unfold AbsStore.insert at hp
+  split at hp
+  · exact hp
+  · exact hp
+  · exact (List.mem_filter.1 hp).1
+
+theorem insert_stored_mono (v : Hdr → Hdr → Bool) (a : AbsStore) (b : List Hdr) (h : Nat)
+    (hs : a.stored h = true) : (a.insert v b).1.stored h = true := by
+  obtain ⟨x, hx, e⟩ := (stored_iff a h).1 hs
+  exact (stored_iff _ h).2 ⟨x, insert_hdrs_sub v a b x hx, e⟩
+
+theorem insert_top (v : Hdr → Hdr → Bool) (a : AbsStore) (b : List Hdr) (ht : TopStored a) :
+    TopStored (a.insert v b).1 := by
+  intro p hp
+  obtain ⟨x, hx, hlt⟩ := ht p (insert_pruned_sub v a b p hp)
+  exact ⟨x, insert_hdrs_sub v a b x hx, hlt⟩
+
+theorem insert_nonempty (v : Hdr → Hdr → Bool) (a : AbsStore) (b : List Hdr) (hne : a.hdrs ≠ []) :
+    (a.insert v b).1.hdrs ≠ [] := by
+  cases hh : a.hdrs with
+  | nil => exact absurd hh hne
+  | cons x rest =>
+    intro hc
+    have := insert_hdrs_sub v a b x (by rw [hh]; simp)
+    rw [hc] at this
+    cases this
+
+/-- a successful insertion of a single header leaves a non-empty store -/
+theorem insert_single_ok_nonempty (v : Hdr → Hdr → Bool) (a : AbsStore) (h : Hdr) (o : Lumina.Model.Store.Out)
+    (hr : (a.insert v [h]).2 = .ok o) : (a.insert v [h]).1.hdrs ≠ [] := by
+  unfold AbsStore.insert at hr ⊢
+  split at hr
+  · cases hr
+  · rename_i hc
+    have := insertCheck_none v a [h] hc
+    cases this
+  · simp
+
+/-! ### the invariant of the worker -/
+
+/-- typing: heights are `u64` -/
+def HdrWf (x : Hdr) : Prop := x.height ≤ Lumina.Model.Store.U64_MAX
+
+structure Inv (c : Nat → Hdr) (s : State) : Prop where
+  /-- SAFETY: every stored header is the honest chain's header of its height -/
+  onchain : AllOnChain c s.store
+  abs : AbsInv s.store
+  top : TopStored s.store
+  headSet : ∀ h, s.head = some h → s.store.hdrs ≠ []
+  connected : s.phase = .connected → s.store.hdrs ≠ []
+  /-- the ongoing batch touches a stored header -/
+  ongoingNb : ∀ r, s.ongoing = some r → 1 ≤ r.1 ∧ r.1 ≤ r.2 ∧ NbStored s.store r.1 r.2
+
+/-- what the environment is assumed to hand to the worker -/
+def EvOk (v : Hdr → Hdr → Bool) (c : Nat → Hdr) (s : State) : Ev → Prop
+  | .netHead h => OnChain c h ∧ HdrWf h          -- the head reported by TRUSTED peers is honest
+  | .headerSub h => OnChain c h ∧ HdrWf h        -- header-sub only forwards verified heads
+  | .batch (some hs) =>                           -- what the p2p layer accepts (C26, C28, internal linking)
+    (∀ r, s.ongoing = some r → p2pAccepts v r hs = true) ∧ ∀ x ∈ hs, HdrWf x
+  | _ => True
+
+theorem inv_of_eq {c : Nat → Hdr} {s s' : State} (hi : Inv c s) (h1 : s'.store = s.store)
+    (h2 : s'.head = s.head) (h3 : s'.ongoing = s.ongoing) (h4 : s'.phase = s.phase) : Inv c s' :=
+  ⟨by rw [AllOnChain, h1]; exact hi.onchain, by rw [h1]; exact hi.abs, by rw [h1]; exact hi.top,
+   by rw [h1, h2]; exact hi.headSet, by rw [h1, h4]; exact hi.connected, by rw [h1, h3]; exact hi.ongoingNb⟩
+
+theorem inv_setHead {c : Nat → Hdr} {s : State} (hi : Inv c s) (hne : s.store.hdrs ≠ []) (h : Nat) :
+    Inv c (setHead s h) := by
+  unfold setHead
+  split
+  · split
+    · exact hi
+    · exact ⟨hi.onchain, hi.abs, hi.top, fun _ _ => hne, hi.connected, hi.ongoingNb⟩
+  · exact ⟨hi.onchain, hi.abs, hi.top, fun _ _ => hne, hi.connected, hi.ongoingNb⟩
+
+theorem setHead_store (s : State) (h : Nat) : (setHead s h).store = s.store := by
+  unfold setHead
+  split
+  · split <;> rfl
+  · rfl
+
+theorem setHead_phase (s : State) (h : Nat) : (setHead s h).phase = s.phase := by
+  unfold setHead
+  split
+  · split <;> rfl
+  · rfl
+
+theorem setHead_ongoing (s : State) (h : Nat) : (setHead s h).ongoing = s.ongoing := by
+  unfold setHead
+  split
+  · split <;> rfl
+  · rfl
+
+/-- replacing the store by the result of an insertion of validated headers that are trusted or
+    have a stored neighbour -/
+theorem inv_insert {v : Hdr → Hdr → Bool} {c : Nat → Hdr} (hd : LinkDown v c) (hu : LinkUp v c)
+    {s : State} (hi : Inv c s) (batch : List Hdr)
+    (hval : ∀ x ∈ batch, x.valid = true) (hwf : ∀ x ∈ batch, HdrWf x)
+    (hn : (∀ x ∈ batch, OnChain c x) ∨
+      (∀ first last, batch.head? = some first → batch.getLast? = some last →
+        NbStored s.store first.height last.height)) :
+    Inv c { s with store := (s.store.insert v batch).1 } :=
+  ⟨insert_onchain hd hu s.store batch hi.onchain hval hn,
+   insert_inv v s.store batch hi.abs hwf,
+   insert_top v s.store batch hi.top,
+   fun h hh => insert_nonempty v s.store batch (hi.headSet h hh),
+   fun hp => insert_nonempty v s.store batch (hi.connected hp),
+   fun r hr => by
+     obtain ⟨h1, h2, h3⟩ := hi.ongoingNb r hr
+     refine ⟨h1, h2, ?_⟩
+     rcases h3 with h3 | h3
+     · exact Or.inl (insert_stored_mono v s.store batch _ h3)
+     · exact Or.inr (insert_stored_mono v s.store batch _ h3)⟩
+
+open Lumina.Model.SyncerGate (fetchDecision Decision) in
+theorem inv_fetch {c : Nat → Hdr} (e : Env) {s : State} (hi : Inv c s) :
+    Inv c (fetchNextBatch e s).1 := by
+  unfold fetchNextBatch
+  split
+  · rename_i r hdec
+    obtain ⟨head, _, _, hhead, _⟩ := Lumina.Proofs.SyncerGate.request_cases hdec
+    have hne := hi.headSet head (by simpa [gateIn] using hhead)
+    have hnb := request_has_stored_neighbour hi.abs hi.top hne hdec
+    exact ⟨hi.onchain, hi.abs, hi.top, hi.headSet, hi.connected,
+      fun r' hr' => by injection hr' with hr'; subst hr'; exact hnb⟩
+  · exact hi
+
+theorem fetch_store (e : Env) (s : State) : (fetchNextBatch e s).1.store = s.store := by
+  unfold fetchNextBatch; split <;> rfl
+
+theorem storeHead_nonempty {a : AbsStore} {sh : Hdr} (h : storeHead a = some sh) : a.hdrs ≠ [] := by
+  intro he
+  simp [storeHead, AbsStore.headHeight, he] at h
+
+/-- `try_init` with a trusted (honest) head -/
+theorem inv_tryInit {v : Hdr → Hdr → Bool} {c : Nat → Hdr} (hd : LinkDown v c) (hu : LinkUp v c)
+    {e : Env} (hev : e.verify = v) {s : State} (hi : Inv c s) {h : Hdr} (hh : OnChain c h) (hw : HdrWf h)
+    {a' : AbsStore} (ht : tryInit e s.store h = some a') :
+    Inv c { s with store := a' } ∧ a'.hdrs ≠ [] := by
+  unfold tryInit at ht
+  cases hti : needsInsert s.store h with
+  | true =>
+    rw [hti] at ht
+    simp only [↓reduceIte] at ht
+    split at ht
+    · rename_i a2 o hins
+      injection ht with ht
+      subst ht
+      have h1 : a2 = (s.store.insert e.verify [h]).1 := by rw [hins]
+      have h2 : (s.store.insert e.verify [h]).2 = .ok o := by rw [hins]
+      subst h1
+      rw [hev] at h2 ⊢
+      exact ⟨inv_insert hd hu hi [h] (by intro x hx; simp at hx; subst hx; exact hh.1)
+        (by intro x hx; simp at hx; subst hx; exact hw)
+        (Or.inl (by intro x hx; simp at hx; subst hx; exact hh)),
+        insert_single_ok_nonempty v s.store h o h2⟩
+    · cases ht
+  | false =>
+    -- the head is already the store's head
+    rw [hti] at ht
+    simp only [Bool.false_eq_true, ↓reduceIte] at ht
+    injection ht with ht
+    subst ht
+    refine ⟨inv_of_eq hi rfl rfl rfl rfl, ?_⟩
+    unfold needsInsert at hti
+    split at hti
+    · rename_i sh hsh; exact storeHead_nonempty hsh
+    · cases hti
+
+/-- **One reaction of the worker keeps the invariant** (in particular: the store stays on the
+    honest chain), whatever the event, provided the environment hands over honest heads and the
+    p2p layer's accepted batches are validated and internally linked. -/
+theorem step_inv {v : Hdr → Hdr → Bool} {c : Nat → Hdr} (hd : LinkDown v c) (hu : LinkUp v c)
+    {e : Env} (hev : e.verify = v) {s : State} (hi : Inv c s) {ev : Ev} (hok : EvOk v c s ev) :
+    Inv c (step e s ev).1 := by
+  cases ev with
+  | peers n =>
+    simp only [step]
+    split
+    · split
+      · exact ⟨hi.onchain, hi.abs, hi.top, hi.headSet, (fun hp => by cases hp), (fun _ hr => by cases hr)⟩
+      · exact inv_of_eq hi rfl rfl rfl rfl
+    · exact inv_of_eq hi rfl rfl rfl rfl
+  | netHead h =>
+    obtain ⟨hh, hw⟩ := hok
+    simp only [step]
+    split
+    · exact hi
+    · split
+      · exact hi
+      · rename_i a' ht
+        obtain ⟨hi1, hne⟩ := inv_tryInit hd hu hev hi hh hw ht
+        have hi2 := inv_setHead hi1 hne h.height
+        split
+        · exact hi2
+        · apply inv_fetch
+          refine ⟨hi2.onchain, hi2.abs, hi2.top, hi2.headSet, fun _ => ?_, hi2.ongoingNb⟩
+          simpa [setHead_store] using hne
+  | headerSub h =>
+    obtain ⟨hh, hw⟩ := hok
+    simp only [step]
+    split
+    · exact hi
+    · rename_i hph
+      have hne : s.store.hdrs ≠ [] := hi.connected hph
+      have hi1 := inv_setHead hi hne h.height
+      apply inv_fetch
+      split
+      · split
+        · rw [hev]
+          exact inv_insert hd hu hi1 [h] (by intro x hx; simp at hx; subst hx; exact hh.1)
+            (by intro x hx; simp at hx; subst hx; exact hw)
+            (Or.inl (by intro x hx; simp at hx; subst hx; exact hh))
+        · exact hi1
+      · exact hi1
+  | batch res =>
+    simp only [step]
+    split
+    · rename_i r hph hon
+      have hi0 : Inv c { s with ongoing := none } :=
+        ⟨hi.onchain, hi.abs, hi.top, hi.headSet, hi.connected, (fun _ hr => by cases hr)⟩
+      cases res with
+      | none => exact inv_fetch e hi0
+      | some hs =>
+        obtain ⟨hacc, hwf⟩ := hok
+        have hacc := hacc r hon
+        apply inv_fetch
+        unfold p2pAccepts at hacc
+        split at hacc
+        · rename_i first last hf hl
+          simp only [Bool.and_eq_true, List.all_eq_true, beq_iff_eq] at hacc
+          obtain ⟨⟨⟨hval, _⟩, e1⟩, e2⟩ := hacc
+          obtain ⟨h1, h2, hnb⟩ := hi.ongoingNb r hon
+          rw [hev]
+          refine inv_of_eq (inv_insert hd hu hi0 hs hval hwf (Or.inr (fun f l hf' hl' => ?_)))
+            rfl rfl rfl rfl
+          rw [hf] at hf'; rw [hl] at hl'
+          injection hf' with hf'; injection hl' with hl'
+          subst hf' hl'
+          rw [e1, e2]; exact hnb
+        · cases hacc
+    · exact hi
+
+/-! ### runs -/
+
+/-- every event of the run is admissible in the state it arrives in -/
+def RunOk (v : Hdr → Hdr → Bool) (c : Nat → Hdr) (e : Env) : State → List Ev → Prop
+  | _, [] => True
+  | s, ev :: evs => EvOk v c s ev ∧ RunOk v c e (step e s ev).1 evs
+
+theorem run_inv {v : Hdr → Hdr → Bool} {c : Nat → Hdr} (hd : LinkDown v c) (hu : LinkUp v c)
+    {e : Env} (hev : e.verify = v) : ∀ (evs : List Ev) (s : State), Inv c s → RunOk v c e s evs →
+      Inv c (run e s evs)
+  | [], _, hi, _ => hi
+  | ev :: evs, s, hi, hr => run_inv hd hu hev evs _ (step_inv hd hu hev hi hr.1) hr.2
+
+theorem runOk_take {v : Hdr → Hdr → Bool} {c : Nat → Hdr} {e : Env} :
+    ∀ (evs : List Ev) (s : State) (k : Nat), RunOk v c e s evs → RunOk v c e s (evs.take k)
+  | [], _, _, _ => by simp [RunOk]
+  | _ :: _, _, 0, _ => by simp [RunOk]
+  | ev :: evs, s, k + 1, hr => ⟨hr.1, runOk_take evs _ k hr.2⟩
+
+theorem inv_init (c : Nat → Hdr) (bs : Nat) : Inv c { batchSize := bs } where
+  onchain := fun _ hx => by cases hx
+  abs := absInv_init
+  top := fun _ hp => by cases hp
+  headSet := fun _ h => by cases h
+  connected := fun h => by cases h
+  ongoingNb := fun _ h => by cases h
+
+/-! ### convergence variant -/
+
+/-- number of heights of `[lo, hi]` that are not stored -/
+def missing (a : AbsStore) (lo hi : Nat) : Nat :=
+  (List.range' lo (hi + 1 - lo)).countP (fun h => !a.stored h)
+
+theorem countP_lt_of {α} {p q : α → Bool} : ∀ {l : List α}, (∀ x ∈ l, q x = true → p x = true) →
+    ∀ x ∈ l, p x = true → q x = false → l.countP q < l.countP p
+  | [], _, x, hx, _, _ => by cases hx
+  | y :: rest, hm, x, hx, hp, hq => by
+    have hrest : rest.countP q ≤ rest.countP p :=
+      List.countP_mono_left (fun z hz => hm z (List.mem_cons_of_mem _ hz))
+    rcases List.mem_cons.1 hx with rfl | hx'
+    · simp only [List.countP_cons, hp, hq]
+      simp
+      omega
+    · have ih := countP_lt_of (fun z hz => hm z (List.mem_cons_of_mem _ hz)) x hx' hp hq
+      simp only [List.countP_cons]
+      have := hm y (by simp)
+      cases hqy : q y with
+      | false => cases p y <;> simp <;> omega
+      | true => simp [this hqy]; omega
+
+/-- V1: an insertion never increases the variant -/
+theorem missing_insert_le (v : Hdr → Hdr → Bool) (a : AbsStore) (b : List Hdr) (lo hi : Nat) :
+    missing (a.insert v b).1 lo hi ≤ missing a lo hi := by
+  unfold missing
+  apply List.countP_mono_left
+  intro h _ hn
+  cases hs : a.stored h with
+  | false => rfl
+  | true => rw [insert_stored_mono v a b h hs] at hn; cases hn
+
+/-- V2: an accepted non-empty batch that starts inside `[lo, hi]` strictly decreases the variant -/
+theorem missing_insert_lt (v : Hdr → Hdr → Bool) (a : AbsStore) (b : List Hdr) (lo hi l h : Nat)
+    (hc : AbsStore.insertCheck v a b = .ok (some (l, h))) (h1 : lo ≤ l) (h2 : l ≤ hi) :
+    missing (a.insert v b).1 lo hi < missing a lo hi := by
+  obtain ⟨first, last, ok, e1, e2⟩ := insertCheck_some v a b l h hc
+  subst e1 e2
+  unfold missing
+  apply countP_lt_of (x := first.height)
+  · intro x _ hn
+    cases hs : a.stored x with
+    | false => rfl
+    | true => rw [insert_stored_mono v a b x hs] at hn; cases hn
+  · simp only [List.mem_range'_1]; omega
+  · -- not stored before: the accepted span is disjoint from the stored heights
+    have : a.stored first.height = false := by
+      rw [stored_false_iff]
+      intro x hx e
+      exact ok.disjoint x hx ⟨by omega, by rw [e]; exact ok.lo_le⟩
+    simp [this]
+  · -- stored afterwards
+    have : (a.insert v b).1.stored first.height = true := by
+      rw [insert_eq_added v a b _ _ hc, stored_iff]
+      exact ⟨first, by simp only [added, List.mem_append]; exact Or.inr (head_of_mem ok.hd), rfl⟩
+    simp [this]
